@@ -35,6 +35,9 @@ CHECKS = {
  'C02': dict(cat='exploration', tech='symbolic execution of the real lexer/parser/VM with uninterpreted operators (z3 EUF: parse-tree identity) and z3 reals/ints for operator arithmetic; quantified reachability query for random',
    text='(a) every expression with up to 3 binary operators (14 operators, optional parentheses and unary minus; all six value positions for <=2 operators) and seeded 4-operator ones is compiled and evaluated by the real code on opaque operands whose operators are uninterpreted functions; z3 shows the result term equals the documented precedence/associativity parse under every interpretation, and that if/while branch on its truth. (b) each operator, unary minus, numbers-as-truth, every value position and round/trunc/floor/ceil/cycle on symbolic numbers equal the ordinary values. (c) [random a b] with the random source stubbed to its documented contract: a<=n<=b and every such n reachable.',
    note='Operators per expression bounded (3 exhaustive, 4/5 seeded); ^ exponents 0..4 concrete; transcendental built-ins outside. Comparisons are normalised by Python reflection equivalences (x>y == y<x).', ref='4/C02'),
+ 'C11': dict(cat='exploration', tech='z3 regex equivalence for the pattern syntax; symbolic execution of TimePattern.match on symbolic hour/minute (z3 LIA) against a denotation formula',
+   text='(1) z3 regex lemma: the implementation pattern regex accepts exactly the documented H:M shapes among whitespace-free strings up to length 8. (2) For well-formed patterns (all 15851 in thorough; every hour and minute field plus 1500 seeded patterns in quick) compile-time acceptance (literal and via macro) holds iff the pattern denotes some time, and match(h,m), executed on symbolic h and m, equals the positional denotation formula for all 1440 times at once. (3) Alternative lists (pairs/triples over a reduced alphabet) compiled and run on the real VM wait for exactly the OR of the listed patterns. (4) Patterns reused in loops, macros and variables keep their denotation.',
+   note='Pattern text is concrete per work unit; hour/minute are solver variables. Set-valued state of TimePattern is wrapped in symbolic-membership views (falls back to the concrete 24x60 table if an implementation keeps no sets).', ref='4/C11'),
 }
 PENDING = {
 }
